@@ -194,6 +194,25 @@ func loopVerdictKernel(rel, fn, marker, canonVal, leanName, params, resultTy, fa
 			if r, ok := n.(*ast.RangeStmt); ok && strings.Contains(norm(src(t.subst(r.X))), norm(marker)) {
 				loops = append(loops, r)
 			}
+			if f, ok := n.(*ast.ForStmt); ok && f.Cond != nil && strings.Contains(norm(src(t.subst(f.Cond))), "len("+norm(marker)) {
+				// `for i := 0; i < len(X); i++`: the same loop, X[i] standing for the element
+				sp2 := t.sp
+				if sp2.RangeCond == nil {
+					sp2.RangeCond = map[string]string{}
+				}
+				t.sp.RangeCond = map[string]string{}
+				for k, v := range sp2.RangeCond {
+					t.sp.RangeCond[k] = v
+				}
+				if lc, ok := f.Cond.(*ast.BinaryExpr); ok {
+					if c, ok := lc.Y.(*ast.CallExpr); ok && len(c.Args) == 1 {
+						t.sp.RangeCond["elem:"+src(t.subst(c.Args[0]))] = canonVal
+					}
+				}
+				if r, ok := t.indexLoopAsRange(f); ok {
+					loops = append(loops, r)
+				}
+			}
 			return true
 		})
 		if len(loops) != 1 {
